@@ -207,10 +207,40 @@ def contiguous_bound_rules(F, rep, P):
                   "the capacity test of Contiguous::try_from(Vec) is %s: a table of exactly MAX items (a full placeholder seek table) is refused and the encoder constructor unwraps the error" % cm)
 
 
+def validate_before_buffering_rule(F, rep, R):
+    """a write() that refuses its arguments (wrong number of channels, channels of unequal length) refuses them before it has
+    appended anything to the writer's buffers: no argument-shape error is reachable after an append"""
+    n = 0
+    for path in ("encode::FlacChannelWriter::write", "encode::FlacSampleWriter::write", "<encode::FlacByteWriter<W, E> as std::io::Write>::write"):
+        b = [x for x in F.bodies if x.promoted is None and (x.path == path or strip_generics(x.path) == path)]
+        if len(b) != 1:
+            continue
+        b = b[0]
+        appends = [bi for bi, t in b.calls() if re.search(r"Extend<.*>>::extend$|::extend$|VecDeque::<.*>::push_back$|::extend_from_slice$", callee_name(t)) and "VecDeque" in (t["aty"][0] if t["aty"] else "")]
+        raises = [(bi, st) for bi, bl in enumerate(b.blocks) if not bl["cleanup"] for st in bl["s"]
+                  if st["rv"]["r"] == "agg" and st["rv"].get("adt") == "Error" and st["rv"].get("var") in ("ChannelLengthMismatch", "ChannelCountMismatch", "SamplesNotDivisibleByChannels")]
+        if not raises:
+            continue
+        after = set()
+        st_ = [x for a in appends for x in b.succs(a)]
+        while st_:
+            x = st_.pop()
+            if x in after or b.blocks[x]["cleanup"]:
+                continue
+            after.add(x)
+            st_.extend(b.succs(x))
+        for bi, st in raises:
+            n += 1
+            rep.check(R, "%s: Error::%s is raised before anything is buffered" % (strip_generics(b.path), st["rv"]["var"]), bi not in after and bool(appends), b.loc(st["sp"]), "",
+                      "Error::%s can be returned after samples were already appended to the writer's buffers: the refused call has changed what later calls and finalize encode" % st["rv"]["var"])
+    rep.floor(R, "argument-shape errors of the buffered writers", n, 2)
+
+
 def run(ctx, rep):
     F = ctx.facts()
     spec = ctx.spec("rfc9639.json")["limits"]
     ok = OkImplies(F, ctx.cg())
+    validate_before_buffering_rule(F, rep, "C15.atomic")
     # ---- Options::block_size / max_partition_order / padding ---------------------------------------------
     for path, lo_ok, hi_ok, dom_hi, what in (
         ("encode::Options::block_size", spec["block_size_min"], 65535, 65535, "block size >= 16"),
